@@ -87,17 +87,70 @@ func init() {
 					return false, false
 				}}
 			}
-			n := r.guarded(f.Decl, f.Name(), "NewAssembly(...)", []guardAtom{sizeAtom("runners<taskCount", runners), sizeAtom("operators<taskCount", ops)}, callTo(newA),
+			// the assembly is built by the constructor or, with the constructor inlined, by an
+			// &Assembly{operators: ..., sourceRunners: ...} literal
+			asmT := r.P.TypeName("jobs", "Assembly")
+			asmLit := func(e ast.Expr) *ast.CompositeLit {
+				var out *ast.CompositeLit
+				ast.Inspect(e, func(m ast.Node) bool {
+					if cl, ok := m.(*ast.CompositeLit); ok && info.TypeOf(cl) == asmT.Type() {
+						out = cl
+					}
+					return out == nil
+				})
+				return out
+			}
+			builds := func(c *pathsim.Ctx, ev *pathsim.Event) bool {
+				if callTo(newA)(c, ev) {
+					return true
+				}
+				switch ev.Kind {
+				case pathsim.EvAssign:
+					for _, rh := range ev.Rhs {
+						if asmLit(rh) != nil {
+							return true
+						}
+					}
+				case pathsim.EvReturn:
+					for _, rs := range ev.Results {
+						if asmLit(rs) != nil {
+							return true
+						}
+					}
+				}
+				return false
+			}
+			n := r.guarded(f.Decl, f.Name(), "NewAssembly(...)", []guardAtom{sizeAtom("runners<taskCount", runners), sizeAtom("operators<taskCount", ops)}, builds,
 				func(v []pathsim.Tri) bool { return v[0] == pathsim.False && v[1] == pathsim.False }, "runners.Size() >= taskCount && operators.Size() >= taskCount")
 			if n == 0 {
 				r.Fail(f.Name()+":no-assembly", f.Decl.Pos(), nil, "Registry.NewAssembly never builds an assembly")
 			}
 			inspect(f.Decl.Body, func(nd ast.Node) bool {
-				call, ok := nd.(*ast.CallExpr)
-				if !ok || r.P.CalleeFunc(info, call) != newA || len(call.Args) != 2 {
+				var memberArgs []ast.Expr
+				var at token.Pos
+				switch x := nd.(type) {
+				case *ast.CallExpr:
+					if r.P.CalleeFunc(info, x) != newA || len(x.Args) != 2 {
+						return true
+					}
+					memberArgs, at = x.Args, x.Pos()
+				case *ast.CompositeLit:
+					if info.TypeOf(x) != asmT.Type() {
+						return true
+					}
+					memberArgs, at = []ast.Expr{compositeField(info, x, "operators"), compositeField(info, x, "sourceRunners")}, x.Pos()
+					if memberArgs[0] == nil || memberArgs[1] == nil {
+						r.Fail(f.Name()+":members:literal", x.Pos(), nil, "the Assembly literal does not set both member lists")
+						return true
+					}
+				default:
 					return true
 				}
-				r.Site(call.Pos(), "NewAssembly arguments")
+				call := struct {
+					Args []ast.Expr
+					pos  token.Pos
+				}{memberArgs, at}
+				r.Site(at, "NewAssembly arguments")
 				for i, want := range []*types.Var{ops, runners} {
 					sl, ok := deref(info, call.Args[i]).(*ast.SliceExpr)
 					good := false
@@ -109,7 +162,7 @@ func init() {
 						}
 					}
 					if !good {
-						r.Fail(f.Name()+":members:"+want.Name(), call.Pos(), nil, "the assembly must take exactly %s.Values()[:taskCount]", want.Name())
+						r.Fail(f.Name()+":members:"+want.Name(), call.pos, nil, "the assembly must take exactly %s.Values()[:taskCount]", want.Name())
 					}
 				}
 				return true
@@ -289,6 +342,10 @@ func init() {
 								if tv, has := hi.Types[ret.Results[0]]; has && tv.Value != nil && tv.Value.String() == "false" {
 									ok = true
 								}
+							}
+							// a bare return of the named result `healthy`, still at its zero value false
+							if ret, isRet := st.(*ast.ReturnStmt); isRet && len(ret.Results) == 0 && namedBoolStillFalse(hi, h, ret.Pos()) {
+								ok = true
 							}
 						}
 						return true
@@ -838,4 +895,32 @@ func init() {
 				r.Error("expected >= 4 call sites of the job's fallible assembly / splitter operations, found %d", n)
 			}
 		}})
+}
+
+// namedBoolStillFalse: fi's first result is a named bool and no assignment to it precedes pos in
+// the source (so a bare return at pos hands back false).
+func namedBoolStillFalse(info *types.Info, fi *prog.FuncInfo, pos token.Pos) bool {
+	rs := fi.Decl.Type.Results
+	if rs == nil || len(rs.List) == 0 || len(rs.List[0].Names) == 0 {
+		return false
+	}
+	obj := info.Defs[rs.List[0].Names[0]]
+	if obj == nil {
+		return false
+	}
+	if b, ok := obj.Type().Underlying().(*types.Basic); !ok || b.Info()&types.IsBoolean == 0 {
+		return false
+	}
+	still := true
+	ast.Inspect(fi.Decl.Body, func(n ast.Node) bool {
+		if as, ok := n.(*ast.AssignStmt); ok && as.Pos() < pos {
+			for _, l := range as.Lhs {
+				if prog.IdentObjPlain(info, l) == obj {
+					still = false
+				}
+			}
+		}
+		return true
+	})
+	return still
 }
